@@ -43,7 +43,7 @@ def hist(prop, focus=None, q=400, t=20000, s=1500, extra=()):
 BIG = ('big', 24, 600, 60)
 
 
-HOOK_COMMITS = ['8b60f71', 'c4143bc']
+HOOK_COMMITS = ['8b60f71', 'c4143bc', 'ed2ca09']
 FIX_COMMITS = ['972e64a (C01)', '36808c6 (C09)', '9968ae8 (C19)', '4e44fa6 (C04)', '1c752d6 (C02)', '0ec6acc (C18)', 'a3c0a98 (C20)', 'be6e20c (C16)', '839495b (C07)']
 NOT_YET = {}
 
@@ -231,22 +231,22 @@ PROPS = {
                 level_note=LEVEL_NOTE),
     'C11': dict(level='proof', module='EscProofs.P.C11Iso',
                 # the last stream of each tier: the credentials refresh fails and the provider is rebuilt under a dry group (5 s of real sleep each)
-                streams=dict(quick=[('scenario', ['-dir', '@ROOT/corpus/C11']), ('hist', ['-n', 400, '-scans', 10, '-focus', 'dry']), ('hist', ['-n', 16, '-scans', 6, '-focus', 'dry', '-slow'])],
-                             thorough=[('scenario', ['-dir', '@ROOT/corpus/C11']), ('hist', ['-n', 20000, '-scans', 12, '-focus', 'dry']), ('hist', ['-n', 160, '-scans', 6, '-focus', 'dry', '-slow'])],
-                             search=[('hist', ['-n', 1500, '-scans', 12, '-focus', 'dry']), ('hist', ['-n', 32, '-scans', 6, '-focus', 'dry', '-slow'])]),
-                aspects=['hist:drywrites', 'hist:journal', 'hist:reccount'], monitors=['C11'],
-                theorems=['Esc.P.C11_scan', 'Esc.P.C11_history', 'Esc.P.C11_reading', 'Esc.P.C11_other_groups_dry_mode_irrelevant'],
+                streams=dict(quick=[('scenario', ['-dir', '@ROOT/corpus/C11']), ('hist', ['-n', 400, '-scans', 10, '-focus', 'dry']), ('hist', ['-n', 16, '-scans', 6, '-focus', 'dry', '-slow']), ('assemble', ['-n', 120, '-bin', '@BUILD/escalator-verif-bin'])],
+                             thorough=[('scenario', ['-dir', '@ROOT/corpus/C11']), ('hist', ['-n', 20000, '-scans', 12, '-focus', 'dry']), ('hist', ['-n', 160, '-scans', 6, '-focus', 'dry', '-slow']), ('assemble', ['-n', 3000, '-bin', '@BUILD/escalator-verif-bin'])],
+                             search=[('hist', ['-n', 1500, '-scans', 12, '-focus', 'dry']), ('hist', ['-n', 32, '-scans', 6, '-focus', 'dry', '-slow']), ('assemble', ['-n', 400, '-bin', '@BUILD/escalator-verif-bin'])]),
+                aspects=['hist:drywrites', 'hist:journal', 'hist:reccount', 'assemble-groups', 'assemble-no-dump', 'bad-case'], monitors=['C11'],
+                theorems=['Esc.P.C11_scan', 'Esc.P.C11_history', 'Esc.P.C11_reading', 'Esc.P.C11_other_groups_dry_mode_irrelevant', 'Esc.P.assemble_dry', 'Esc.P.assemble_dry_other_entries_irrelevant'],
                 technique='Lean 4 theorem (journal anatomy: with either dry switch every entry is a read) + differential correspondence and runtime monitor',
                 level_text='C11_scan / C11_history: with the global flag or the group option set, the group scan journal contains no write, for every state/view/environment and every history. '
                            'C11_other_groups_dry_mode_irrelevant (= C12_frame read for dry_mode): what a group does for a given environment is a function of the global flag and its own configuration, state, cloud group and view; no other group\'s dry_mode occurs in it. '
                            'Scope: scans (RunOnce); the one-off ASG tag write at provider construction is outside. Isolation of other groups is C12. Tie: hist (dry-focused) on writes of dry groups + monitor.',
                 level_note=LEVEL_NOTE),
     'C16': dict(level='proof', module='EscProofs.P.C16',
-                streams=dict(quick=[('decode', []), ('validate', ['-n', 4000]), ('startup', ['-n', 150, '-bin', '@BUILD/escalator-bin'])],
-                             thorough=[('decode', []), ('validate', ['-n', 400000]), ('startup', ['-n', 4000, '-bin', '@BUILD/escalator-bin'])],
-                             search=[('validate', ['-n', 40000]), ('startup', ['-n', 600, '-bin', '@BUILD/escalator-bin'])]),
-                aspects=['problems', 'honoured', 'field', 'panic', 'bad-case', 'startup'], monitors=['C16'], py_monitor=c16_safe_monitor,
-                theorems=['Esc.P.C16_sound', 'Esc.P.C16_startup_sound', 'Esc.P.C16_translation_complete', 'Esc.P.C16_keys_distinct', 'Esc.P.C16_keys_partial', 'Esc.P.C16_keys_full_fails'],
+                streams=dict(quick=[('decode', []), ('validate', ['-n', 4000]), ('startup', ['-n', 150, '-bin', '@BUILD/escalator-bin']), ('assemble', ['-n', 120, '-bin', '@BUILD/escalator-verif-bin'])],
+                             thorough=[('decode', []), ('validate', ['-n', 400000]), ('startup', ['-n', 4000, '-bin', '@BUILD/escalator-bin']), ('assemble', ['-n', 3000, '-bin', '@BUILD/escalator-verif-bin'])],
+                             search=[('validate', ['-n', 40000]), ('startup', ['-n', 600, '-bin', '@BUILD/escalator-bin']), ('assemble', ['-n', 400, '-bin', '@BUILD/escalator-verif-bin'])]),
+                aspects=['problems', 'honoured', 'field', 'panic', 'bad-case', 'startup', 'assemble-groups', 'assemble-opts', 'assemble-no-dump'], monitors=['C16'], py_monitor=c16_safe_monitor,
+                theorems=['Esc.P.C16_sound', 'Esc.P.C16_startup_sound', 'Esc.P.C16_translation_complete', 'Esc.P.C16_keys_distinct', 'Esc.P.C16_keys_partial', 'Esc.P.C16_keys_full_fails', 'Esc.P.assemble_groups'],
                 technique='Lean 4 theorem over definitions REGENERATED from the Go source on every run (go/ast translator of ValidateNodeGroup and of the option struct tags / documented keys) + differential correspondence of the translation with the real validator and decoder + independent monitor',
                 level_text='C16_sound: Gen.validate c -> Safe c, where Gen.validate is the conjunction of the 24 checkThat(...) conditions translated from pkg/controller/node_group.go on this run and Safe is written from the property statement; '
                            'deleting or weakening a check breaks the proof before any test runs; C16_translation_complete: no construct was left untranslated; C16_keys_*: json keys pairwise distinct, every documented example key except '
@@ -255,12 +255,12 @@ PROPS = {
                 level_note=LEVEL_NOTE + ' YAML parsing itself (yaml.NewYAMLOrJSONDecoder) and time.ParseDuration are trusted library code; durations reach the model as the values the accessors returned.'),
     'C17': dict(level='proof', module='EscProofs.P.C17Scan',
                 # controller-level histories too: what the provider is asked, and from which description of the group (refresh failures: 5 s of real sleep each)
-                streams=dict(quick=[('awsops', ['-n', 3000]), ('fleetops', ['-n', 96]), ('hist', ['-n', 250, '-scans', 10, '-focus', 'up']), ('hist', ['-n', 16, '-scans', 6, '-focus', 'up', '-slow']), ('hist', ['-n', 250, '-scans', 10, '-focus', 'multi'])],
-                             thorough=[('awsops', ['-n', 200000]), ('fleetops', ['-n', 1600]), ('hist', ['-n', 10000, '-scans', 12, '-focus', 'multi']), ('hist', ['-n', 10000, '-scans', 12, '-focus', 'up']), ('hist', ['-n', 160, '-scans', 6, '-focus', 'up', '-slow'])],
-                             search=[('awsops', ['-n', 20000]), ('fleetops', ['-n', 300]), ('hist', ['-n', 1500, '-scans', 12, '-focus', 'up']), ('hist', ['-n', 32, '-scans', 6, '-focus', 'up', '-slow']), ('hist', ['-n', 1500, '-scans', 12, '-focus', 'multi'])]),
-                aspects=['journal', 'outcome', 'hist:resize'], monitors=['C17'],
+                streams=dict(quick=[('awsops', ['-n', 3000]), ('fleetops', ['-n', 96]), ('hist', ['-n', 250, '-scans', 10, '-focus', 'up']), ('hist', ['-n', 16, '-scans', 6, '-focus', 'up', '-slow']), ('hist', ['-n', 250, '-scans', 10, '-focus', 'multi']), ('assemble', ['-n', 120, '-bin', '@BUILD/escalator-verif-bin'])],
+                             thorough=[('awsops', ['-n', 200000]), ('fleetops', ['-n', 1600]), ('hist', ['-n', 10000, '-scans', 12, '-focus', 'multi']), ('hist', ['-n', 10000, '-scans', 12, '-focus', 'up']), ('hist', ['-n', 160, '-scans', 6, '-focus', 'up', '-slow']), ('assemble', ['-n', 3000, '-bin', '@BUILD/escalator-verif-bin'])],
+                             search=[('awsops', ['-n', 20000]), ('fleetops', ['-n', 300]), ('hist', ['-n', 1500, '-scans', 12, '-focus', 'up']), ('hist', ['-n', 32, '-scans', 6, '-focus', 'up', '-slow']), ('hist', ['-n', 1500, '-scans', 12, '-focus', 'multi']), ('assemble', ['-n', 400, '-bin', '@BUILD/escalator-verif-bin'])]),
+                aspects=['journal', 'outcome', 'hist:resize', 'assemble-cloud', 'assemble-no-dump', 'bad-case'], monitors=['C17'],
                 theorems=['Esc.P.C17_increase', 'Esc.P.C17_reject', 'Esc.P.C17_never_lowers', 'Esc.P.C17_attach_partition', 'Esc.P.C17_batch_limits',
-                          'Esc.P.mkFleetReq_ok', 'Esc.P.C17_scan_never_lowers'],
+                          'Esc.P.mkFleetReq_ok', 'Esc.P.C17_scan_never_lowers', 'Esc.P.assemble_ready_timeout'],
                 technique='Lean 4 theorem over the model of aws.NodeGroup.IncreaseSize (all deltas, bounds, fleet sizes, environments; batch constants regenerated from source) + differential correspondence on full AWS call arguments + monitor',
                 level_text='C17_scan_never_lowers: every SetDesiredCapacity in the journal of ScaleUp asks for strictly more than the desired size the provider holds for the group at that moment (the implementation-side oracle loweringRequests is its negation, judged against the description the cloud itself gives). C17_increase: rejected requests make no call; otherwise exactly SetDesiredCapacity(current+d), or in fleet mode at most one CreateFleet for exactly d (min target d, instant, '
                            'configured template, default on-demand, overrides from the configured types) and never a SetDesiredCapacity; C17_attach_partition: attach calls carry consecutive batches of the acquired ids, '
@@ -292,11 +292,11 @@ PROPS = {
                            'or failed call; C19_count <= desired-min; C19_k8s_after_cloud / C19_scan_batches: Node deletions only after the whole batch was accepted, for both batches of a scan; C19_not_member_*: the error ends the scan and makes RunOnce fatal; C19_membership_fresh: "member" and "minimum" are those of an answer the cloud gave in this same scan (distinct cloud groups). '
                            'Tie: awsops (provider level) and hist (controller level) + monitors.',
                 level_note=LEVEL_NOTE),
-    'C12': dict(level='proof', module='EscProofs.P.C12', streams=dict(quick=[('scenario', ['-dir', '@ROOT/corpus/C12']), ('hist', ['-n', 400, '-scans', 10, '-focus', 'multi']), ('hist', ['-n', 16, '-scans', 6, '-focus', 'fleet'])],
-                             thorough=[('scenario', ['-dir', '@ROOT/corpus/C12']), ('hist', ['-n', 20000, '-scans', 12, '-focus', 'multi']), ('hist', ['-n', 300, '-scans', 8, '-focus', 'fleet'])],
-                             search=[('hist', ['-n', 1500, '-scans', 12, '-focus', 'multi']), ('hist', ['-n', 60, '-scans', 8, '-focus', 'fleet'])]),
-                aspects=['hist:journal', 'hist:reccount', 'hist:outcome'], monitors=['C12'], py_monitor=c12_twin_monitor,
-                theorems=['Esc.P.C12_targets', 'Esc.P.C12_frame', 'Esc.P.C12_containment', 'Esc.P.C12_fatal_kinds', 'Esc.P.scanGroup_gid'],
+    'C12': dict(level='proof', module='EscProofs.P.C12', streams=dict(quick=[('scenario', ['-dir', '@ROOT/corpus/C12']), ('hist', ['-n', 400, '-scans', 10, '-focus', 'multi']), ('hist', ['-n', 16, '-scans', 6, '-focus', 'fleet']), ('assemble', ['-n', 120, '-bin', '@BUILD/escalator-verif-bin'])],
+                             thorough=[('scenario', ['-dir', '@ROOT/corpus/C12']), ('hist', ['-n', 20000, '-scans', 12, '-focus', 'multi']), ('hist', ['-n', 300, '-scans', 8, '-focus', 'fleet']), ('assemble', ['-n', 3000, '-bin', '@BUILD/escalator-verif-bin'])],
+                             search=[('hist', ['-n', 1500, '-scans', 12, '-focus', 'multi']), ('hist', ['-n', 60, '-scans', 8, '-focus', 'fleet']), ('assemble', ['-n', 400, '-bin', '@BUILD/escalator-verif-bin'])]),
+                aspects=['hist:journal', 'hist:reccount', 'hist:outcome', 'assemble-cloud', 'assemble-groups', 'assemble-no-dump', 'bad-case'], monitors=['C12'], py_monitor=c12_twin_monitor,
+                theorems=['Esc.P.C12_targets', 'Esc.P.C12_frame', 'Esc.P.C12_containment', 'Esc.P.C12_fatal_kinds', 'Esc.P.scanGroup_gid', 'Esc.P.assemble_cloud_own', 'Esc.P.assemble_cloud_other_entries_irrelevant'],
                 technique='Lean 4 theorem (targets from the journal anatomy; frame lemma for the per-group loop by induction over the configured groups; containment by case analysis of the loop) + differential correspondence on per-group journals with 2-3 groups + monitor + metamorphic twin run of the implementation (same scan on a second controller whose world differs only inside one group; the other groups\' calls and state must be identical)',
                 level_text='C12_targets: every call of a group scan targets a node listed for that group, an instance of its cached cloud group, or that cloud group; C12_frame: a group\'s record is the scan of its own configuration, state, cloud group and view '
                            'as they stood before the loop, whatever the other groups (other names, other cloud groups) contain or do and wherever it stands in the order — other groups enter only through the index at which the environment is consulted; '
